@@ -46,17 +46,21 @@ type Config struct {
 	// Response instead of the requested one; the BMC then follows through
 	// with the announced algorithms.
 	Announce *Suite
+	// AnnounceWildcard[k] makes the response's algorithm payload k (0 auth,
+	// 1 integrity, 2 confidentiality) a zero-length "wildcard" payload; the BMC
+	// then carries on with algorithm None for it.
+	AnnounceWildcard [3]bool
 	// CipherSuiteData is the raw record data served in 16-byte chunks.
 	CipherSuiteData []byte
 
-	DeviceID    []byte
-	Chassis     []byte
-	SessionInfo []byte
-	AuthCaps    []byte
-	SystemGUID  [16]byte
-	Sensors     map[byte][]byte // sensor number -> Get Sensor Reading response data
-	PowerReading []byte         // 17 bytes after the body code
-	DCMICaps    map[byte][]byte // parameter -> bytes after body code
+	DeviceID     []byte
+	Chassis      []byte
+	SessionInfo  []byte
+	AuthCaps     []byte
+	SystemGUID   [16]byte
+	Sensors      map[byte][]byte // sensor number -> Get Sensor Reading response data
+	PowerReading []byte          // 17 bytes after the body code
+	DCMICaps     map[byte][]byte // parameter -> bytes after body code
 	// DCMISensors: entity -> record IDs; DCMISensorErr: entity -> completion code
 	DCMISensors   map[byte][]uint16
 	DCMISensorErr map[byte]byte
@@ -224,6 +228,15 @@ func (b *BMC) openSession(rx *Rx) {
 	if b.Cfg.Announce != nil {
 		ann = *b.Cfg.Announce
 	}
+	if b.Cfg.AnnounceWildcard[0] {
+		ann.Auth = 0
+	}
+	if b.Cfg.AnnounceWildcard[1] {
+		ann.Integ = 0
+	}
+	if b.Cfg.AnnounceWildcard[2] {
+		ann.Conf = 0
+	}
 	s := &Session{}
 	s.HS.Suite = ann
 	s.HS.SIDM = sidm
@@ -235,9 +248,13 @@ func (b *BMC) openSession(rx *Rx) {
 	rsp := []byte{tag, 0, d[1] & 0x0f, 0}
 	rsp = append(rsp, le32(sidm)...)
 	rsp = append(rsp, le32(s.HS.SIDC)...)
-	rsp = append(rsp, algPayload(0, ann.Auth)...)
-	rsp = append(rsp, algPayload(1, ann.Integ)...)
-	rsp = append(rsp, algPayload(2, ann.Conf)...)
+	for k, alg := range []byte{ann.Auth, ann.Integ, ann.Conf} {
+		if b.Cfg.AnnounceWildcard[k] {
+			rsp = append(rsp, byte(k), 0, 0, 0, 0, 0, 0, 0)
+		} else {
+			rsp = append(rsp, algPayload(byte(k), alg)...)
+		}
+	}
 	rx.ReplyPType, rx.ReplyPayload = PTOpenRsp, rsp
 }
 
